@@ -161,9 +161,12 @@ def may_reject(node):
     return False
 
 
-def check_property(node, e, pod, v, trail: bytes, bad=False):
+def check_property(node, e, pod, v, trail: bytes, bad=False, variant=None):
     """C08's clauses evaluated directly on the real classes for one (spec, value, endianness, mode, trailing bytes).
-    Returns None or a violation dict with a stable `class`."""
+    Returns None or a violation dict with a stable `class`.
+    variant: the value is handed to the real writer with its mappings rebuilt in another insertion order / key form
+    (G.reorder; an equal value, so every clause is unchanged; `value` in the report stays the canonical term and `order`
+    says how to rebuild the dicts)"""
     obj = S.build(node)
     base = {"spec": S.sexp(node), "e": e, "pod": int(pod), "trail": S.hb(trail)}
     if node.x.get("regname"):
@@ -172,6 +175,10 @@ def check_property(node, e, pod, v, trail: bytes, bad=False):
         base["value"] = S.to_sx(node, pod, v)
     except S.Shape:
         base["value"] = repr(v)
+    if variant:
+        v, _ = G.reorder(node, v, variant)
+        base["order"] = variant
+        base["python_value"] = repr(v)[:400]
     size = impl_size(obj)
     if size.startswith("EXC"):
         return dict(base, clause="a size query never fails", **{"class": "size-query-raises"}, got=size)
@@ -245,6 +252,8 @@ def spec_stream(ctx):
         yield "random-sloppy", G.gen_spec(rng, rng.choice((1, 2, 3)), sloppy=0.15, stage2=0.0)
     for i in range(ctx.pick(300, 6000)):
         yield "random-stage2", G.gen_spec(rng, rng.choice((1, 2, 3)), sloppy=0.03, stage2=0.35)
+    for i in range(ctx.pick(140, 3000)):
+        yield "random-mapping", G.gen_dicty(rng, rng.choice((1, 2, 2, 3)), need_delim=rng.random() < 0.3)
 
 
 TRAILS = [b"\x00", b"\x01", b"\xff\xff", b"\x00\x00\x00\x00\x00", b"\n", b"a;b\x00"]
@@ -421,7 +430,8 @@ def correspond(ctx):
     r2.distribution.update({"registry:trees-found": len(trees) + len(skipped), "registry:translated": len(trees),
                             "registry:inside-proved-fragment(wf)": inside, "registry:translated-but-not-wf": len(trees) - inside,
                             "registry:not-translated": len(skipped)})
-    return [r1, r2]
+    r3 = _run_state_suite(ctx)
+    return [r1, r2, r3]
 
 
 def _run_suite(ctx, res, stream, with_probes):
@@ -496,10 +506,12 @@ def _run_suite(ctx, res, stream, with_probes):
         for x in node.walk():
             bump("ctor:" + x.k)
         composite = node.size() > 1
+        mapping = G.has_mapping(node)
         lines.append("info " + sx)
         expect.append(("info", "%d %d %s %s" % (int(iswf), int(S.delimited(node)), S.hx(S.min_size(node)), impl_size(obj)),
                        {"spec": sx}))
         risky = G.spin_risk(node)
+        uses = []          # earlier uses of THIS spec object (attached to violations: a failure may need them to replay)
         for e, pod, v, bad in value_cases(kind, node, ctx, rng):
             try:
                 v = fix_tags(node, e, v)
@@ -518,6 +530,9 @@ def _run_suite(ctx, res, stream, with_probes):
             info = {"spec": sx, "e": e, "pod": int(pod), "value": vsx}
             if kind == "registry":
                 info["registry"] = node.x.get("regname")
+            if uses:
+                info["history"] = list(uses[-8:])
+            this_use = {"e": e, "pod": int(pod), "value": vsx} if (vsx is not None and not bad) else None
             b = impl_ser(obj, v, e)
             ser_idx = None
             if vsx is not None and "nan" not in vsx:
@@ -538,7 +553,34 @@ def _run_suite(ctx, res, stream, with_probes):
                 viol = check_property(node, e, pod, v, trail, bad=bad)
                 oracle_runs += 1
                 if viol:
-                    res.impl_violations.append(viol)
+                    res.impl_violations.append(dict(viol, history=list(uses[-8:])) if uses else viol)
+            if mapping and not bad:
+                # the same value with its dicts in another insertion order / key form: oracle + model on the permuted term
+                for var in G.variants_for(node, rng, ctx.pick(2, 4)):
+                    try:
+                        v2, changed = G.reorder(node, v, var)
+                    except Exception:
+                        bump("order-variant:not-applicable")
+                        continue
+                    if not changed:
+                        bump("order-variant:identical(skipped)")
+                        continue
+                    bump("order-variant:" + ("+".join(["reordered"] + var.split("+")[1:])))
+                    if infrag:
+                        viol = check_property(node, e, pod, v, rng.choice(TRAILS), variant=var)
+                        oracle_runs += 1
+                        bump("order-variant:oracle-runs")
+                        if viol:
+                            res.impl_violations.append(dict(viol, history=list(uses[-8:])) if uses else viol)
+                    if vsx is not None and "nan" not in vsx:
+                        b2 = impl_ser(obj, v2, e)
+                        psx = S._unparse_sx(G.reorder_sx(S.parse_sx(vsx), var))
+                        lines.append(f"ser {e} {sx} {psx}")
+                        expect.append(("ser", "ERR" if isinstance(b2, str) else "OK " + S.hb(b2), dict(info, order=var)))
+                        if composite:
+                            nontriv.add(("ser", sx, e, pod, psx, var))
+            if this_use is not None:
+                uses.append(this_use)
             if isinstance(b, str):
                 bump("ser:rejected")
                 continue
@@ -548,6 +590,8 @@ def _run_suite(ctx, res, stream, with_probes):
                 inputs += mutate(rng, b)
             for data in inputs:
                 r = impl_de(obj, data, e, pod)
+                if data is not b:
+                    uses.append({"e": e, "pod": int(pod), "data": S.hb(data)})     # decode-only use of the object
                 if r[0] == "HANG":
                     bump("de:hang(skipped)")
                     continue
@@ -606,6 +650,313 @@ def _run_suite(ctx, res, stream, with_probes):
     return res
 
 
+# ---------------------------------------------------------------- insertion-order sweep + statefulness probes
+
+def _obs_sx(node, pod, r):
+    try:
+        return S.to_sx(node, pod, r[1])
+    except S.Shape as ex:
+        return "shape:" + str(ex)
+
+
+def state_probe(node, e, pod, v):
+    """the round-trip clauses hold at EVERY point of a history of uses of one spec object, so: writing the same value
+    twice gives the same bytes; reading the same bytes twice gives equal values, also after the first result was modified
+    in place (results are not aliased to state kept by the spec); a later write of the same value is unaffected"""
+    obj = S.build(node)
+    base = {"spec": S.sexp(node), "e": e, "pod": int(pod), "trail": "-", "probe": 1}
+    if node.x.get("regname"):
+        base["registry"] = node.x["regname"]
+    try:
+        base["value"] = S.to_sx(node, pod, v)
+    except S.Shape:
+        return None
+    b1 = impl_ser(obj, v, e)
+    b2 = impl_ser(obj, v, e)
+    if b1 != b2:
+        return dict(base, clause="writing the same value twice with one spec object gives the same bytes",
+                    **{"class": "stateful-encoding"}, first=b1 if isinstance(b1, str) else S.hb(b1),
+                    second=b2 if isinstance(b2, str) else S.hb(b2))
+    if isinstance(b1, str):
+        return None
+    r1 = impl_de(obj, b1, e, pod)
+    if r1[0] != "OK":
+        return None                     # reported by the round-trip clause
+    s1 = _obs_sx(node, pod, r1)
+    r2 = impl_de(obj, b1, e, pod)
+    s2 = _obs_sx(node, pod, r2) if r2[0] == "OK" else r2[0]
+    if r2[0] != "OK" or not S.same_value(s2, s1) or r2[2] != r1[2]:
+        return dict(base, clause="reading the same bytes twice with one spec object returns equal values",
+                    **{"class": "stateful-decoding"}, written=S.hb(b1), first=s1, second=s2)
+    if not S.same_value(_obs_sx(node, pod, r1), s1):
+        return dict(base, clause="a later read does not change the value returned by an earlier read",
+                    **{"class": "result-aliasing"}, written=S.hb(b1), first=s1, first_after_second_read=_obs_sx(node, pod, r1))
+    touched = G.deep_mutate(r1[1])
+    if touched and not S.same_value(_obs_sx(node, pod, r2), s1):
+        return dict(base, clause="two reads return independent values: modifying one in place does not change the other",
+                    **{"class": "result-aliasing"}, written=S.hb(b1), first=s1, second_after_modifying_first=_obs_sx(node, pod, r2),
+                    containers_modified=touched)
+    r3 = impl_de(obj, b1, e, pod)
+    s3 = _obs_sx(node, pod, r3) if r3[0] == "OK" else r3[0]
+    if r3[0] != "OK" or not S.same_value(s3, s1) or r3[2] != r1[2]:
+        return dict(base, clause="reading the same bytes again returns an equal value after an earlier result was modified in place",
+                    **{"class": "result-aliasing" if touched else "stateful-decoding"}, written=S.hb(b1), first=s1, third=s3,
+                    containers_modified=touched)
+    b3 = impl_ser(obj, v, e)
+    if b3 != b1:
+        return dict(base, clause="a later write of the same value gives the same bytes (after a read whose result was modified)",
+                    **{"class": "stateful-encoding"}, first=S.hb(b1), second=b3 if isinstance(b3, str) else S.hb(b3))
+    if S.to_sx(node, pod, v) != base["value"]:
+        return dict(base, clause="read(write(v)) == v: the written value itself is unchanged by write / read",
+                    **{"class": "value-aliasing"}, after=S.to_sx(node, pod, v))
+    return None
+
+
+def _subset_values(node, pod, rng):
+    """FlagSwitch at the top: one value per subset of the choices; otherwise two random values"""
+    if node.k != "flagswitch":
+        out = []
+        for _ in range(2):
+            try:
+                out.append(G.gen_value(node, pod, rng))
+            except Exception:
+                pass
+        return out
+    cls = S.flag_cls(node.a[0])
+    out = []
+    n = len(node.ch)
+    for mask in range(1 << n):
+        d = {}
+        for i, ((nm, z), c) in enumerate(zip(node.a[3], node.ch)):
+            if mask >> i & 1:
+                d[("F%d" % nm) if pod else cls["F%d" % nm]] = G.gen_value(c, pod, rng)
+        out.append(d)
+    return out
+
+
+def _confirm_history(viol):
+    """a violation that needs earlier uses of the spec object: keep the shortest recorded history that reproduces it on a
+    FRESHLY built object"""
+    hist = viol.get("history") or []
+    cands = [[]] + [[h] for h in hist[::-1]] + ([hist[-2:]] if len(hist) > 2 else []) + [hist]
+    if viol.get("registry"):
+        cands = [hist]         # the registered object cannot be rebuilt: its state is whatever this run left
+    for hh in cands:
+        try:
+            w = _case_violation(dict(viol, history=hh))
+        except Exception:
+            w = None
+        if w and w.get("class") == viol.get("class"):
+            w["history"] = hh
+            return w
+    return dict(viol, replay_note="not reproduced from this spec object's own recorded history (state shared through sub-spec "
+                                  "objects used by other trees); found in the run as reported")
+
+
+def _run_state_suite(ctx):
+    rng = ctx.rng
+    res = CorrResult(
+        suite="mapping insertion order (exhaustive small scope) + statefulness: spec OBJECTS reused across {<,>} x {pod, non-pod}",
+        rule="(a) 9 fixed FlagSwitch / Template / Dataclass / BitField trees (incl. nested): FlagSwitch values for EVERY subset of the "
+             "choices, every permutation of the insertion order of 2- and 3-key dicts (other dicts reversed) x key forms {as generated, "
+             "all member names, all flag members, mixed} x {instance, dict form} x {<,>} x {pod, non-pod}: oracle on the real classes + "
+             "model `ser` on the permuted term.  (b) a pool of spec OBJECTS (the fixed trees, mapping-heavy trees, random trees, "
+             "TypedBytes wrappers, a sample of the live registered objects) is built ONCE; every object is used with 2 values in each of "
+             "{<,>} x {pod, non-pod}: phase 1 all uses of all objects in one globally shuffled order, phase 2 object by object with the "
+             "uses of each object in a fresh random order.  At every use: the property clauses (round trip, framing, size, composition "
+             "with trailing bytes) on the reused object, write twice = same bytes, read twice = equal values, in-place modification of "
+             "the first decoded value (every dict / list / dataclass / record reachable) does not change the second decode nor a later "
+             "write, the encoding / decoding of phase 2 equals that of phase 1, and the model (stateless by construction) gives the same "
+             "`ser` / `de` answers.  non-trivial = distinct (spec, e, mode, value, order) on a composite spec")
+    lines, expect = [], []
+    dist = {}
+    nontriv = set()
+    oracle_runs = 0
+
+    def bump(k, d=1):
+        dist[k] = dist.get(k, 0) + d
+
+    # ---- (a) exhaustive insertion-order sweep
+    orders = ["perm:" + p for n_ in (2, 3) for p in G.all_perms(n_)]
+    fixed = G.perm_scope_specs()
+    for name, node in fixed:
+        sx = S.sexp(node)
+        obj = S.build(node)
+        kinds = {x.k for x in node.walk()}
+        forms = [""]
+        if "flagswitch" in kinds:
+            forms = ["", "+names", "+members", "+mixed"]
+        if "dataclass" in kinds:
+            forms = ["", "+dict"]
+        for pod in (False, True):
+            for v in _subset_values(node, pod, rng):
+                try:
+                    vsx = S.to_sx(node, pod, v)
+                except S.Shape:
+                    continue
+                seen = set()
+                for o in orders:
+                    for f in forms:
+                        var = o + f
+                        try:
+                            v2, changed = G.reorder(node, v, var)
+                        except Exception:
+                            bump("sweep:variant-not-applicable")
+                            continue
+                        if not changed or repr(v2) in seen:
+                            continue
+                        seen.add(repr(v2))
+                        for e in ("<", ">"):
+                            bump("sweep:cases")
+                            bump("sweep:" + name)
+                            viol = check_property(node, e, pod, v, rng.choice(TRAILS), variant=var)
+                            oracle_runs += 1
+                            if viol:
+                                res.impl_violations.append(viol)
+                            if "nan" in vsx:
+                                continue
+                            b2 = impl_ser(obj, v2, e)
+                            psx = S._unparse_sx(G.reorder_sx(S.parse_sx(vsx), var))
+                            lines.append(f"ser {e} {sx} {psx}")
+                            expect.append(("ser", "ERR" if isinstance(b2, str) else "OK " + S.hb(b2),
+                                           {"spec": sx, "e": e, "pod": int(pod), "value": vsx, "order": var}))
+                            nontriv.add((sx, e, pod, psx, var))
+
+    # ---- (b) statefulness: one pool of objects, reused
+    pool = [n for _, n in fixed]
+    for _ in range(ctx.pick(50, 600)):
+        pool.append(G.gen_dicty(rng, rng.choice((1, 2, 2, 3)), need_delim=rng.random() < 0.3))
+    for _ in range(ctx.pick(120, 2500)):
+        pool.append(G.gen_spec(rng, rng.choice((1, 2, 2, 3)), need_delim=rng.random() < 0.3))
+    for _ in range(ctx.pick(50, 600)):
+        inner = G.gen_spec(rng, rng.choice((1, 2)), need_delim=False)
+        tk = rng.choice((("array", False, 1), ("array", False, 2), ("greedy",), ("term", (0,), False)))
+        fs = G.fixed_size(inner)
+        if fs is not None and rng.random() < 0.4:
+            tk = ("fixed", fs)
+        pool.append(S.Node("typed", (tk, False, True), [inner]))
+    reg = [n for _, n in registry_stream(ctx)]
+    rng.shuffle(reg)
+    pool += reg[:ctx.pick(60, len(reg))]
+    uses, per_obj = [], []
+    seen_sx = set()
+    for node in pool:
+        sx = S.sexp(node)
+        if not node.x.get("regname"):
+            if sx in seen_sx:
+                continue
+            seen_sx.add(sx)
+        try:
+            if not in_fragment(node):
+                bump("state:spec-outside-fragment(skipped)")
+                continue
+            S.build(node)
+        except Exception:
+            bump("state:spec-build-failed")
+            continue
+        bump("state:spec-objects")
+        mine = []
+        for pod in (False, True):
+            for _ in range(2):
+                try:
+                    v0 = G.gen_value(node, pod, rng)
+                except Exception:
+                    continue
+                for e in ("<", ">"):
+                    try:
+                        v = fix_tags(node, e, v0)
+                        vsx = S.to_sx(node, pod, v)
+                    except Exception:
+                        continue
+                    mine.append((node, e, pod, v, vsx))
+        uses += mine
+        per_obj.append(mine)
+    phase1 = list(uses)
+    rng.shuffle(phase1)
+    phase2 = []
+    rng.shuffle(per_obj)
+    for mine in per_obj:
+        mine = list(mine)
+        rng.shuffle(mine)
+        phase2 += mine
+    first = {}
+    hist = {}
+    combos = {}
+    for phase, seq in ((1, phase1), (2, phase2)):
+        for node, e, pod, v, vsx in seq:
+            obj = S.build(node)
+            sx = S.sexp(node)
+            key = (id(node), e, pod, vsx)
+            h = hist.setdefault(id(node), [])
+            combos.setdefault(id(node), []).append(e + ("p" if pod else "n"))
+            bump("state:uses-phase%d" % phase)
+            var = None
+            if G.has_mapping(node) and rng.random() < 0.5:
+                var = G.variants_for(node, rng, 2)[rng.randrange(2)]
+            viol = check_property(node, e, pod, v, rng.choice(TRAILS), variant=var)
+            if viol is None:
+                viol = state_probe(node, e, pod, v)
+            oracle_runs += 2
+            b = impl_ser(obj, v, e)
+            obs_b = b if isinstance(b, str) else "OK " + S.hb(b)
+            obs_d = None
+            if not isinstance(b, str):
+                r = impl_de(obj, b, e, pod)
+                obs_d = ("OK " + _obs_sx(node, pod, r) + " " + str(r[2])) if r[0] == "OK" else r[0]
+            if key in first:
+                fb, fd = first[key]
+                if viol is None and (fb != obs_b or (fd is not None and obs_d is not None and not S.same_value(fd, obs_d))):
+                    viol = {"spec": sx, "e": e, "pod": int(pod), "trail": "-", "value": vsx, "probe": 1,
+                            "clause": "the encoding / decoding of a value does not depend on earlier uses of the spec object",
+                            "class": "stateful-encoding" if fb != obs_b else "stateful-decoding",
+                            "first_use": (fb if fb != obs_b else fd)[:300], "later_use": (obs_b if fb != obs_b else obs_d)[:300]}
+                    if node.x.get("regname"):
+                        viol["registry"] = node.x["regname"]
+            else:
+                first[key] = (obs_b, obs_d)
+                if "nan" not in vsx:
+                    info = {"spec": sx, "e": e, "pod": int(pod), "value": vsx, "history": list(h[-6:])}
+                    lines.append(f"ser {e} {sx} {vsx}")
+                    expect.append(("ser", "ERR" if isinstance(b, str) else obs_b, info))
+                    if obs_d is not None and obs_d.startswith("OK") and not G.spin_risk(node):
+                        lines.append(f"de {e} {int(pod)} {sx} {S.hb(b)}")
+                        expect.append(("de", obs_d, dict(info, data=S.hb(b))))
+                    if node.size() > 1:
+                        nontriv.add((sx, e, pod, vsx))
+            if viol:
+                viol = dict(viol, history=list(h[-6:]))
+                if len(res.impl_violations) < 60:
+                    res.impl_violations.append(viol)
+            h.append({"e": e, "pod": int(pod), "value": vsx})
+    switches = sum(1 for c in combos.values() for a, b_ in zip(c, c[1:]) if a[0] != b_[0])
+    dist["state:byte-order-switches-on-one-object"] = switches
+    dist["state:mode-switches-on-one-object"] = sum(1 for c in combos.values() for a, b_ in zip(c, c[1:]) if a[1] != b_[1])
+    dist["state:objects-used-in-all-4-combinations"] = sum(1 for c in combos.values() if len(set(c)) == 4)
+    dist["state:distinct-use-orders"] = len({tuple(c) for c in combos.values()})
+
+    model = ctx.run_driver(lines, timeout=900)
+    for (what, obs, info), m in zip(expect, model):
+        m = m.strip()
+        same = (m == obs)
+        if not same and what == "de" and obs.startswith("OK ") and m.startswith("OK "):
+            same = S.same_value(obs, m)
+        if not same and len(res.disagreements) < 200:
+            res.disagreements.append(dict(info, op=what, impl=obs[:300], model=m[:300]))
+    res.evaluations = len(lines) + oracle_runs
+    res.distinct_nontrivial = len(nontriv)
+    dist["oracle-runs"] = oracle_runs
+    res.distribution = dict(sorted(dist.items()))
+    res.samples = [{"op": e[0], "case": e[2], "impl": e[1][:120], "model": m[:120]}
+                   for e, m in (list(zip(expect, model))[:3] + list(zip(expect, model))[-3:])]
+    if res.impl_violations:
+        res.impl_violations.sort(key=lambda v: (len(v.get("history") or []) > 0, len(str(v.get("spec"))) + len(str(v.get("value")))))
+        head = []
+        for v in res.impl_violations[:3]:
+            head.append(_confirm_history(v) if v.get("probe") else shrink(v))
+        res.impl_violations = head + res.impl_violations[3:50]
+    return res
+
+
 # ---------------------------------------------------------------- search / shrink / replay
 
 def _node_of_case(case):
@@ -625,13 +976,36 @@ def _case_violation(case):
     v = S.from_sx(node, S.parse_sx(case["value"]), pod)
     trail = b"" if case.get("trail", "-") == "-" else bytes.fromhex(case["trail"])
     bad = case.get("class") == "limit-not-rejected" or bool(case.get("bad"))
-    return check_property(node, case["e"], pod, v, trail, bad=bad)
+    obj = S.build(node)
+    for h in case.get("history") or []:          # earlier uses of the same spec object (statefulness probes)
+        try:
+            if "data" in h:
+                impl_de(obj, b"" if h["data"] == "-" else bytes.fromhex(h["data"]), h["e"], bool(h["pod"]))
+                continue
+            hv = S.from_sx(node, S.parse_sx(h["value"]), bool(h["pod"]))
+            hb_ = impl_ser(obj, hv, h["e"])
+            if not isinstance(hb_, str):
+                impl_de(obj, hb_, h["e"], bool(h["pod"]))
+        except Exception:
+            pass
+    viol = check_property(node, case["e"], pod, v, trail, bad=bad, variant=case.get("order"))
+    if viol is None and case.get("probe"):
+        viol = state_probe(node, case["e"], pod, v)
+    if viol is not None and case.get("history"):
+        viol["history"] = case["history"]
+    return viol
 
 
 def shrink(viol):
     """try the same clause on sub-specs with the corresponding sub-values"""
     if viol.get("class") == "limit-not-rejected" or viol.get("registry"):
         return viol         # which part of the value violates a limit is not known here: keep the case as found
+    if viol.get("probe"):
+        return viol         # statefulness probes: minimised over the history instead (_confirm_history)
+    if viol.get("history"):
+        viol = _confirm_history(viol)
+        if viol.get("history") or viol.get("replay_note"):
+            return viol
     try:
         node = S.node_of_sx(S.parse_sx(viol["spec"]))
         if not str(viol["value"]).startswith("("):
@@ -709,6 +1083,15 @@ def search(ctx, hints):
             viol = check_property(node, e, pod, v, rng.choice(TRAILS), bad=bad)
             if viol:
                 return shrink(viol)
+            if bad or not G.has_mapping(node):
+                continue
+            for var in G.variants_for(node, rng, 2):
+                try:
+                    viol = check_property(node, e, pod, v, rng.choice(TRAILS), variant=var)
+                except Exception:
+                    viol = None
+                if viol:
+                    return shrink(viol)
     return None
 
 
